@@ -69,7 +69,7 @@ func (r *run) startNode() {
 	r.mu.Lock()
 	n.start = len(r.shadow)
 	r.mu.Unlock()
-	n.s = jsync.New(r.node.BC, r, log.NewNopZapLogger(), 0, false, r.node.Store).WithListener(&jsync.SelectiveListener{
+	n.s = jsync.New(r.node.BC, r.dataSource(), log.NewNopZapLogger(), 0, false, r.node.Store).WithListener(&jsync.SelectiveListener{
 		OnSyncStepDoneCb: func(op string, h uint64, _ time.Duration) {
 			if op == jsync.OpStore {
 				r.onStored(h)
@@ -251,16 +251,17 @@ func (r *run) restartNode(graceful bool) bool {
 
 // execute performs one run and returns its events.
 func execute(sc *Scenario, tr int) (*run, error) {
-	w, err := newWorld(sc.Seed, sc.NewState, sc.InitLen, sc.Plan, sc.Shapes)
+	w, err := newWorld(sc.Seed, sc.NewState, sc.InitLen, sc.Plan, sc.Shapes, sc.Classes)
 	if err != nil {
 		return nil, err
 	}
 	r := &run{
 		sc: sc, w: w, node: chainkit.NewNode(nil, sc.NewState), curVer: 1, abort: make(chan struct{}),
 		rng: rand.New(rand.NewSource(sc.Seed*7919 + 13)), servedOK: map[int]bool{},
+		classGone: map[int]bool{}, cstats: map[string]int{},
 	}
 	r.mu.Lock()
-	r.log(vh.J{"ev": "Reset", "tr": tr, "chain": r.cur(), "name": sc.Name})
+	r.log(vh.J{"ev": "Reset", "tr": tr, "chain": r.cur(), "name": sc.Name, "ment": w.mentTable(), "sierra": w.sierraIDs(), "prod": sc.Prod})
 	r.mu.Unlock()
 	r.startNode()
 
